@@ -21,7 +21,9 @@ RULE = (
     "'snap' mode: object beat = active tempo change + whole beats + k/d with d from the documented snapping grid, "
     ">= 1/96 beat between two objects of a column, leading empty measures, crowded measures whose row LCM exceeds "
     "384, 1..3 charts sharing one tempo list, the seven chart types reamber has a key count for, all seven object "
-    "kinds, all 19 header fields incl. selectable=False, now and then a chart without objects) built through the "
+    "kinds, all 19 header fields incl. selectable=False, now and then a chart without objects; in a third of the "
+    "cases two objects of one column exactly 1/96 beat apart are added - lift+fake, a 1/96-beat hold or roll, a roll "
+    "head 1/96 after a hold tail - with an optional 1/5, 1/7 or 1/9 neighbour that caps the measure) built through the "
     "public constructors with ms from the exact tempo integrator; read: SMMapSet.read of such a skeleton rendered to "
     ".sm text with the C02 renderer (tempo on measure lines 3/4, on the 1/48 grid 1/4); rate: .rate(r) of any of "
     "them, r in {0.5,0.75,1.25,1.5,2}; convert: OsuToSM / QuaToSM of a generated osu / Quaver chart (3,4,6,7,8 "
